@@ -1,70 +1,217 @@
 /-
-The closed world: environment + scenario scripts (+ components, added by the files that
-extend `exec`).  Stage A: environment operations only.
+The closed world: scripted operations, the actions of events, `Environment.step/run`,
+`System.simulate`.
 -/
-import SimProc.Model.Basic
+import SimProc.Model.Floor
 namespace SimProc
-
-/-- Kinds of errors an operation can report (the Python exception class). -/
-inductive Err where
-  | value | key | attribute | runtime | assertion | index | type_ | notImplemented | other
-deriving Repr, DecidableEq, Inhabited
-
-/-- Result of a scripted operation. -/
-inductive Res where
-  | ok
-  | err (e : Err)
-  | bool (b : Bool)
-  | none_
-  | some_
-deriving Repr, DecidableEq, Inhabited
-
-/-- Scripted operations (issued from outside between steps, or from inside an event action). -/
-inductive Op where
-  | sched (t asset : Int) (k : Nat) (prio : Int)
-  | schedRel (dt asset : Int) (k : Nat) (prio : Int)
-  | pause (a : Int)
-  | unpause (a : Int)
-  | cancel (a : Int)
-deriving Repr, DecidableEq, Inhabited
-
-structure World where
-  env : Env := {}
-  seed : Nat := 0
-  wmod : Nat := 0
-  scripts : List (List Op) := []
-  results : List Res := []
-  error : Option String := none
-deriving Inhabited
-
 namespace World
 
-/-- `Environment.schedule_event` with the keyed tie-break weight. -/
-def sched (w : World) (t asset : Int) (a : Action) (prio : Int) : World × Res :=
-  let act := a.toNat
-  match w.env.apply Arith.exact (.sched t asset act prio (weightOf w.seed w.wmod t asset act prio)) with
-  | (e, .ok) => ({ w with env := e }, .ok)
-  | (_, _) => (w, .err .value)
+/-! ### targets of work orders -/
 
-def envOp (w : World) (op : EnvOp) : World :=
-  { w with env := (w.env.apply Arith.exact op).1 }
+def targetParams (w : World) (tgt : Nat) (tag : Int) : Int × Int × Int :=
+  match (w.targets.getD tgt default).params.find? (fun p => p.1 == tag) with
+  | some (_, d, n, c) => (d, n, c)
+  | none => (0, 0, 0)
+
+def modMaint (w : World) (m : Nat) (f : Maint → Maint) : World :=
+  let mw := w.maints.getD m default
+  { w with maints := w.maints.set m { mw with m := f mw.m } }
+
+def maint (w : World) (m : Nat) : Maint := (w.maints.getD m default).m
+
+/-- Schedule the `START_WORK` events of the orders a scan started. -/
+def startOrders (w : World) (m : Nat) (st : List Order) : World :=
+  st.foldl (fun w o => w.schedLib w.now (w.maints.getD m default).aid (.startWork m o.seq) pStartWork) w
+
+/-! ### scripted operations -/
+
+def getVar (w : World) (h : Nat) : Option Nat := (w.vars.getD h none)
+def setVar (w : World) (h : Nat) (v : Option Nat) : World :=
+  let vars := if w.vars.length ≤ h then w.vars ++ List.replicate (h + 1 - w.vars.length) none else w.vars
+  { w with vars := vars.set h v }
 
 def applyOp (w : World) : Op → World × Res
   | .sched t a k p => w.sched t a (.script k) p
-  | .schedRel dt a k p => w.sched (w.env.now + dt) a (.script k) p
+  | .schedRel dt a k p => w.sched (w.now + dt) a (.script k) p
   | .pause a => (w.envOp (.pause a), .ok)
   | .unpause a => (w.envOp (.unpause a), .ok)
   | .cancel a => (w.envOp (.cancel a), .ok)
+  | .addRes r amt =>
+    let (rm, res, recs, chk) := w.rm.add r amt
+    (({ w with rm := rm }).rmEffects recs chk, res)
+  | .reserve h req =>
+    let (rm, res, id, recs) := w.rm.reserve req
+    match res with
+    | .err e => (w, .err e)
+    | _ => ((({ w with rm := rm }).rmEffects recs false).setVar h id, res)
+  | .release h part =>
+    match w.getVar h with
+    | none => (w, .err .attribute)
+    | some id =>
+      let (rm, res, recs, chk) := w.rm.release id part
+      (({ w with rm := rm }).rmEffects recs chk, res)
+  | .merge h1 h2 =>
+    match w.getVar h1 with
+    | none => (w, .err .attribute)
+    | some a =>
+      match w.getVar h2 with
+      | none => (w, .err .type_)
+      | some b =>
+        let (rm, res) := w.rm.merge a b
+        ({ w with rm := rm }, res)
+  | .register k req =>
+    let (rm, chk) := w.rm.register req (.script k)
+    (({ w with rm := rm }).rmEffects [] chk, .ok)
+  | .schedFail d t =>
+    w.sched t (w.dev d).aid (.fail d) pFail
+  | .schedFailRel d dt =>
+    w.sched (w.now + dt) (w.dev d).aid (.fail d) pFail
+  | .shutdown d => (w.shutdownDev d false none, .ok)
+  | .restore d => (w.restoreDev d, .ok)
+  | .block d b => (w.setBlock d b, .ok)
+  | .adjust d n => (w.adjustParts d n, .ok)
+  | .setCycle d c =>
+    if c < 0 then (w, .err .assertion) else (w.modDev d (fun x => { x with cycle := c }), .ok)
+  | .offsetNext d o => (w.modDev d (fun x => { x with offset := x.offset + o }), .ok)
+  | .rewire d ups => (w.rewire d ups, .ok)
+  | .workOrder m tgt tag info =>
+    let (_, need, _) := w.targetParams tgt tag
+    let (m', ret, o, st) := (w.maint m).create tgt tag need info
+    let w := w.modMaint m (fun _ => m')
+    let w := match o with
+      | some o => w.addRec (.workOrder 0 m w.now tgt o.tag o.info)
+      | none => w
+    -- the record is written before the scan schedules anything
+    (w.startOrders m st, .bool ret)
+  | .setParams tgt tag dur need cost =>
+    let t := w.targets.getD tgt default
+    let ps := (t.params.filter (fun p => !(p.1 == tag))) ++ [(tag, dur, need, cost)]
+    ({ w with targets := w.targets.set tgt { t with params := ps } }, .ok)
+  | .regObj s obj ovr =>
+    let sw := w.scheds.getD s default
+    let (s', r) := sw.s.register obj ovr
+    ({ w with scheds := w.scheds.set s { sw with s := s' } }, .bool r)
+  | .unregObj s obj =>
+    let sw := w.scheds.getD s default
+    let (s', r) := sw.s.unregister obj
+    ({ w with scheds := w.scheds.set s { sw with s := s' } }, .bool r)
+  | .setVar k v =>
+    let sv := if w.svars.length ≤ k then w.svars ++ List.replicate (k + 1 - w.svars.length) 0 else w.svars
+    ({ w with svars := sv.set k v }, .ok)
+  | .addSensor c s =>
+    let l := w.cmsSensors.getD c []
+    if l.contains s then (w, .ok)
+    else
+      let cs := if w.cmsSensors.length ≤ c then w.cmsSensors ++ List.replicate (c + 1 - w.cmsSensors.length) [] else w.cmsSensors
+      let sw := w.sensors.getD s default
+      ({ w with cmsSensors := cs.set c (l ++ [s]),
+                sensors := w.sensors.set s { sw with s := sw.s.addCb (1000 + c) } }, .ok)
 
 def applyOps (w : World) (ops : List Op) : World :=
-  ops.foldl (fun w op => let (w', r) := w.applyOp op; { w' with results := w'.results ++ [r] }) w
+  ops.foldl (fun w op => let (w', r) := w.applyOp op; w'.addRes r) w
+
+def runScript (w : World) (k : Nat) : World := w.applyOps (w.scripts.getD k [])
+
+/-! ### resource availability check -/
+
+def scanOps : ScanOps World where
+  rm := fun w => w.rm
+  call := fun w cb _ =>
+    match cb with
+    | .script k => (w.addRes (.cb k)).runScript k
+    | .proc d => w.procResourceCb d
+  erase := fun w i => { w with rm := { w.rm with waiting := w.rm.waiting.eraseIdx i } }
+
+/-- `_check_pending_requests()`. -/
+def rmCheck (w : World) : World := scanWaiting scanOps 10000 w 0
+
+/-! ### maintainer events -/
+
+def hookStart (w : World) (tgt : Nat) (tag : Int) : World :=
+  let t := w.targets.getD tgt default
+  let w := w.addRes (.hook true tgt tag)
+  match t.dev with
+  | some d => w.shutdownDev d false none
+  | none => match t.startScript with
+    | some k => w.runScript k
+    | none => w
+
+def hookEnd (w : World) (tgt : Nat) (tag : Int) : World :=
+  let t := w.targets.getD tgt default
+  let w := w.addRes (.hook false tgt tag)
+  match t.dev with
+  | some d => w.restoreDev d
+  | none => match t.endScript with
+    | some k => w.runScript k
+    | none => w
+
+/-- `_start_work_order(request)`. -/
+def startWork (w : World) (m seq : Nat) : World :=
+  match (w.maint m).findActive seq with
+  | none => w.setErr "start-unknown-order"
+  | some o =>
+    let (dur, _, _) := w.targetParams o.target o.tag
+    let w := w.addRec (.workOrder 1 m w.now o.target o.tag o.info)
+    let (_, _, cost) := w.targetParams o.target o.tag
+    let w := w.modMaint m (fun mm => mm.startCost w.now cost)
+    let w := w.hookStart o.target o.tag
+    w.schedLib (w.now + dur) (w.maints.getD m default).aid (.finishWork m seq) pFinishWork
+
+/-- `_finish_work_order(request)`. -/
+def finishWork (w : World) (m seq : Nat) : World :=
+  match (w.maint m).findActive seq with
+  | none => w.setErr "finish-unknown-order"
+  | some o =>
+    let w := w.hookEnd o.target o.tag
+    -- the hook may have created orders: re-read the maintainer
+    let mm := w.maint m
+    let mm := { mm with util := mm.util - o.needed, active := mm.active.erase o }
+    let w := w.modMaint m (fun _ => mm)
+    let w := w.addRec (.workOrder 2 m w.now o.target o.tag o.info)
+    let (m', st) := (w.maint m).tryWork
+    let w := w.modMaint m (fun _ => m')
+    w.startOrders m st
+
+/-! ### action scheduler and sensors -/
+
+/-- `_update_state(advance)`. -/
+def schedUpdate (w : World) (s : Nat) (advance : Bool) : World :=
+  let sw := w.scheds.getD s default
+  let (s', r) := sw.s.update advance
+  let w := { w with scheds := w.scheds.set s { sw with s := s' } }
+  match r with
+  | none => w
+  | some (st, objs, dur) =>
+    let w := w.addRec (.schedUpdate s w.now st)
+    let w := objs.foldl (fun w (o, ovr) => w.addRes (.act s o w.now st ovr)) w
+    w.schedLib (w.now + dur) sw.aid (.schedUpdate s) pOtherHigh
+
+/-- `PeriodicSensor._periodic_sense()`. -/
+def periodicSense (w : World) (s : Nat) : World :=
+  let sw := w.sensors.getD s default
+  let vals := sw.vars.map (fun k => w.svars.getD k 0)
+  let s' := sw.s.periodic w.now vals
+  let w := { w with sensors := w.sensors.set s { sw with s := s' } }
+  let w := s'.cbs.foldl (fun w c => w.addRes (.sense s c w.now vals)) w
+  w.schedLib (w.now + s'.interval) sw.aid (.periodicSense s) pSensor
+
+/-! ### events -/
 
 /-- Run the action of a popped live event. -/
 def exec (w : World) (a : Action) : World :=
   match a with
   | .terminate => w            -- the flag is set by `Env.step`
-  | .script k => w.applyOps (w.scripts.getD k [])
-  | _ => { w with error := some "unknown action" }
+  | .script k => w.runScript k
+  | .finishCycle d => w.finishCycle d
+  | .passPart d => w.passPart d
+  | .fail d => w.failDev d
+  | .releaseIfIdle d => w.releaseIfIdle d
+  | .rmCheck => w.rmCheck
+  | .startWork m o => w.startWork m o
+  | .finishWork m o => w.finishWork m o
+  | .schedUpdate s => w.schedUpdate s true
+  | .periodicSense s => w.periodicSense s
+  | .unknown _ => w.setErr "unknown-action"
 
 /-- `Environment.step`: pop, set the clock, run the action unless cancelled. -/
 def step (w : World) : Option (Event × World) :=
@@ -73,6 +220,32 @@ def step (w : World) : Option (Event × World) :=
   | some (e, env') =>
     let w1 := { w with env := env' }
     some (e, if e.live then w1.exec (Action.ofNat e.act) else w1)
+
+/-- `initialize` of a registered asset. -/
+def initAsset (w : World) : AssetRef → World
+  | .dev d => w.initDev d
+  | .maint m =>
+    let mw := w.maints.getD m default
+    { w with maints := w.maints.set m { mw with inited := true, m := { mw.m with val := mw.m.val.reset } } }
+  | .sched s => w.schedUpdate s false
+  | .sensor s =>
+    let sw := w.sensors.getD s default
+    let firstTime := !sw.registered
+    let w := { w with sensors := w.sensors.set s { sw with s := sw.s.reset, registered := true } }
+    match sw.s.kind with
+    | .periodic => w.schedLib (w.now + sw.s.interval) sw.aid (.periodicSense s) pSensor
+    | .output =>
+      if firstTime then w.modDev sw.proc (fun d => { d with finSensors := d.finSensors ++ [s] }) else w
+  | .cms _ => w
+
+/-- First part of `System.simulate`: initialise the resource manager and the assets (once). -/
+def simulateInit (w : World) : World :=
+  if w.started then w
+  else
+    let (rm, recs, chk) := w.rm.init
+    let w := ({ w with rm := rm }).rmEffects recs chk
+    let w := w.assets.foldl (fun w a => w.initAsset a) w
+    { w with started := true }
 
 /-- Beginning of `Environment.run(d)`. -/
 def runBegin (w : World) (d : Int) : World × Res :=
@@ -83,7 +256,7 @@ def runBegin (w : World) (d : Int) : World × Res :=
 
 /-- The loop of `Environment.run`, with fuel. -/
 def runLoop : Nat → World → World
-  | 0, w => { w with error := some "fuel" }
+  | 0, w => w.setErr "fuel"
   | f + 1, w =>
     if w.env.running then
       match w.step with
